@@ -438,6 +438,24 @@ def evaluate(ctx, r, cfg, nodes, last_set, npong, nt, meta):
     if len(gets) > 5 and ed.get('contract_checks', 0) > 100:
         ctx.nontrivial.add(meta['digest'])
 
+def gen_lowlevel(ctx, k):
+    """every public low-level send function (with and without data, all sizes) called by 2-8 threads at once in debug mode: the race detector
+    sees any scratch state a function keeps outside its own stack (the framing / numbering of what they emit is C01's / C05's business)"""
+    rng = ctx.sub_rng('c10ll', k)
+    nt = rng.choice([2, 3, 4, 8])
+    sc = Scn(seed=ctx.seed * 131 + k, perturb=rng.choice([0, 200, 500]), watchdog=180000)
+    sc.add('bus mode silent', 'bus brackets 0', 'debug 1', f'start @null {rng.choice([0, 1])}', f'par {nt}')
+    names = [n for n, r_ in sorted(S.rows().items()) if r_['data'] is not None and n not in gen.EXCLUDE]
+    hot = [names[(6 * k + j) % len(names)] for j in range(6)]          # 12 scenarios walk through all functions
+    for t in range(nt):
+        for i in range(rng.randrange(40, 90)):
+            nm, ad, a, data = gen.random_call(rng, (1 + t, rng.randrange(0, 3), 0), names=([hot[(i // 3) % 6]] if rng.random() < 0.85 else names), hot=0.3, long_bias=0.3)
+            sc.add(f't {t} ' + call(nm, *S.tokens(nm, ad, a)))
+            if rng.random() < 0.05:
+                sc.add(f't {t} flush')
+    sc.add('endpar', 'flush', 'quiesce', 'stop')
+    return sc.text(), nt
+
 def run(ctx):
     ctx.rule = ('normal-mode sessions (generated config, two trains with eight functions each, a track output / booster, segments), auto-flush 1-5 ms, 2-16 application threads each '
                 'running 60-160 random thread-safe calls (train-function commands with one writer per function, low-level sends, pings, segment/booster/train/whole-state getters, '
@@ -466,6 +484,15 @@ def run(ctx):
             ctx.count('runs_' + fl)
             if len(j) > 7:
                 sweep.pause_stats(ctx, r.events, 'directed')
+    if only in ('', 'stress'):
+        lj = [gen_lowlevel(ctx, k) for k in range(ctx.n(12, 400))]
+        lres = runner.run_many('tsan', [(i, j[0]) for i, j in enumerate(lj)], timeout=600)
+        for j, r in zip(lj, lres):
+            meta = {'digest': hashlib.sha1(j[0].encode()).hexdigest()[:12], 'flavour': 'tsan', 'threads': j[1], 'kind': 'lowlevel-all'}
+            if not ctx.generic_failures(r, meta) and runner.outcome(r) == 'ok':
+                ctx.evaluations += 1
+                ctx.count('lowlevel_all_functions_runs')
+                ctx.count('api_calls', sum(1 for e in r.events if e.get('e') == 'ret'))
     # (6) second opinion that also sees inside the uninstrumented glib: valgrind --tool=helgrind on reduced scenarios (plain flavour)
     if only in ('', 'helgrind'):
         hj = [gen_scenario(ctx, 7000 + k, 'plain', small=True) for k in range(ctx.n(3, 60))]
